@@ -29,7 +29,9 @@ STARTS = ["2025-01-01 00:00:00", "2025-03-29 18:00:00", "2025-10-25 19:00:00", "
           "2025-06-15 05:00:00"]
 SOURCES = [["hypothesis", None], ["user data", None],
            ["Base ADEME_V19", "https://data.ademe.fr/datasets/base-carbone(r)"],
-           ["efsim study", "https://example.invalid/efsim"]]
+           ["efsim study", "https://example.invalid/efsim"],
+           # two pages of one source: same name, other link
+           ["efsim study", "https://example.invalid/efsim/annex-b"], ["hypothesis", "https://example.invalid/why"]]
 
 TECHNOLOGIES = ['go-pgx', 'jvm-kotlin-spring', 'node-express-sequelize', 'php-symfony', 'rust-actix-sqlx']
 IMPL_DETAILS = ['aggregation-code-side', 'default', 'mysql', 'no-index', 'no-pagination', 'orm-loop']
